@@ -286,6 +286,11 @@ func c04Session(t testing.TB, tr *tracer, f c04Fault, variant int) (int, int) {
 	waitCh := make(chan error, 1)
 	go func() { waitCh <- cl.Wait() }()
 	lost := f.kind == "rdcut" && pr.s2c.wasCut() // the stream really ended (a cut beyond the end of the session is no fault)
+	if f.halfOpen && !lost {
+		// the cut offset lies beyond the end of this run's reply stream, so nothing was lost; on a link whose Close does nothing the
+		// peer never learns that the client is done: end the server->client stream by hand so that Close and Wait can return
+		pr.s2c.CloseWrite(nil)
+	}
 	if lost {
 		select {
 		case <-waitCh:
